@@ -101,6 +101,7 @@ func runSelfTest(c *Ctx, p *propDef, verif string) {
 			continue
 		}
 		c2 := runRules(w2, p, "quick")
+		theWorld = c.W
 		for _, o := range c2.Obs {
 			if o.Status == Violated && o.Rule == v.Rule && strings.Contains(o.Construct, v.Construct) && !base[o.Rule+"|"+o.Construct] {
 				res.Fired = true
